@@ -9,6 +9,7 @@ stdin: [case...] (each with "kind": "list"|"set"|"dict"|"nested"|"ndict") -> [[o
 import copy
 import gc
 import operator
+import pickle
 import sys
 import os
 
@@ -87,6 +88,12 @@ def loose_like(owner, how, raw_init_value, fill):
     the methods of the built-in base class, so whatever they are they get in."""
     if how == "deepcopy":
         c = copy.deepcopy(owner.x)
+    elif how == "copy":
+        c = copy.copy(owner.x)
+    elif how == "pickle":
+        c = pickle.loads(pickle.dumps(owner.x))
+    elif how == "self":
+        return owner.x                 # obj.x = obj.x (what `obj.x += ...` does after the in-place operation)
     elif how == "orphan":
         tmp = type(owner)()
         tmp.x = raw_init_value
@@ -99,6 +106,25 @@ def loose_like(owner, how, raw_init_value, fill):
         raise RuntimeError("no loose container of the same type")
     fill(c)
     return c
+
+
+def loose_set(ts, items):
+    """an ownerless trait set of the same trait holding exactly these raw items"""
+    c = copy.deepcopy(ts)
+    set.clear(c)
+    set.update(c, items)
+    return c
+
+
+def loose_dict(td, op):
+    """the mapping argument of update / |=: a plain dict, or (trailing "loose" marker) an ownerless trait dict"""
+    d = dict((val(k), val(v)) for k, v in op[2])
+    if op[-1] == "loose" and isinstance(td, dict):
+        c = copy.deepcopy(td)
+        dict.clear(c)
+        dict.update(c, d)
+        return c
+    return d
 
 
 def fill_list(items):
@@ -170,10 +196,15 @@ def run_set(case):
             elif k == "Clear":
                 ts.clear()
             elif k == "Update":
-                ts.update(*[[val(a) for a in l] for l in op[1]])
+                args = [[val(a) for a in l] for l in op[1]]
+                if op[-1] == "loose":
+                    args = [loose_set(ts, l) for l in args]
+                ts.update(*args)
             elif k in ("Ior", "Iand", "Isub", "Ixor"):
                 items = [val(a) for a in op[2]]
                 arg = set(items) if op[1] == "set" else frozenset(items) if op[1] == "frozenset" else items
+                if op[-1] == "loose" and op[1] == "set":
+                    arg = loose_set(ts, items)
                 f = {"Ior": operator.ior, "Iand": operator.iand, "Isub": operator.isub, "Ixor": operator.ixor}[k]
                 if f(ts, arg) is not ts:
                     raise RuntimeError("in-place operator returned a new object")
@@ -224,9 +255,9 @@ def run_dict(case):
             elif k == "DelItem":
                 del td[val(op[1])]
             elif k == "Update":
-                td.update(dict(pairs(op[2])) if op[1] else pairs(op[2]))
+                td.update(loose_dict(td, op) if op[1] else pairs(op[2]))
             elif k == "Ior":
-                if operator.ior(td, dict(pairs(op[2])) if op[1] else pairs(op[2])) is not td:
+                if operator.ior(td, loose_dict(td, op) if op[1] else pairs(op[2])) is not td:
                     raise RuntimeError("|= returned a new object")
             elif k == "SetDefault":
                 td.setdefault(val(op[1]), val(op[2]))
